@@ -9,6 +9,7 @@
    skip lists) driven by the fastwalk interface stated at the top of that file. *)
 From Coq Require Import Permutation.
 From Fzf Require Import Prelude WalkSpec WalkModel WalkProofs WalkLinkSpec WalkLinkProofs.
+From Fzf Require Import WalkErrSpec WalkErrModel WalkErrProofs.
 Open Scope Z_scope.
 
 (* ★ For ALL option sets, skip lists, roots and trees: the model never fails and pushes exactly the spec's
@@ -187,3 +188,55 @@ Proof.
   - vm_compute. reflexivity.
   - intros t H. vm_compute in H. injection H as <-. vm_compute. reflexivity.
 Qed.
+
+(* ---- directories that CANNOT BE READ (spec/WalkErrSpec.v, model/WalkErrModel.v) ----
+   `uentry` = entry with a flag on every directory and link to a directory: can the walker read it (no permission,
+   path longer than PATH_MAX, removed after its parent was read).  `visible` = the tree a walker can see (an
+   unreadable directory has no content); `listing_unreadable` = the listing of the visible tree.
+   `read_files_e` = readFiles with the callback's first statement `if err != nil { return nil }`, driven by
+   fastwalk's error protocol (second call with the error; any non-nil answer ends the Walk; `noerr && Walk(..)`
+   does not walk the roots after a failed one); it returns the items pushed and readFiles' return value. *)
+
+(* ★ For ALL option sets, skip lists, roots and trees with ANY set of unreadable directories: the model pushes
+   exactly the listing of what can be seen - every readable part of every root, each entry once - no Walk is
+   ended early (the result is true) and all roots are walked. *)
+Theorem walk_unreadable_eq_listing : forall o ig roots, uroots_ok roots ->
+  read_files_e o ig roots = Ok (listing_unreadable o ig roots, true).
+Proof. exact walk_unreadable_eq_listing_proof. Qed.
+Print Assumptions walk_unreadable_eq_listing.
+
+(* when every directory can be read this is the listing of the theorems above *)
+Theorem listing_unreadable_conservative : forall o ig (roots : list uroot),
+  Forall (fun r : uroot => let '(_, rd, ch) := r in rd = true /\ forallb readable ch = true) roots ->
+  listing_unreadable o ig roots =
+  listing_roots o ig (map (fun r : uroot => let '(root, _, ch) := r in (root, map all_readable ch)) roots).
+Proof. exact listing_unreadable_conservative_proof. Qed.
+Print Assumptions listing_unreadable_conservative.
+
+(* ★ an unreadable directory costs its own content and nothing else: its siblings before and after it are
+   listed as ever, the directory itself like an empty directory *)
+Theorem unreadable_costs_only_its_content : forall o ig d a nm ch b,
+  flat_map (list_entry o ig d) (map visible (a ++ UDir nm false ch :: b)) =
+  flat_map (list_entry o ig d) (map visible a) ++ list_entry o ig d (Dir nm []) ++
+  flat_map (list_entry o ig d) (map visible b).
+Proof. exact unreadable_costs_only_its_content_proof. Qed.
+Print Assumptions unreadable_costs_only_its_content.
+
+(* nothing is invented: whatever is listed is listed when every directory can be read *)
+Theorem unreadable_nothing_invented : forall o ig (roots : list uroot) x,
+  In x (listing_unreadable o ig roots) ->
+  In x (listing_roots o ig (map (fun r : uroot => let '(root, _, ch) := r in (root, map all_readable ch)) roots)).
+Proof. exact unreadable_nothing_invented_proof. Qed.
+Print Assumptions unreadable_nothing_invented.
+
+(* non-vacuity and regression witness: roots "b" = { x/ (unreadable) = { f } ; g } and "c" = { h }.  reader.go's
+   answer (nil) lists b/ b/x/ b/g c/ c/h and returns true; a callback that answers the error report with
+   filepath.SkipDir - the idiom of filepath.WalkDir, which fastwalk does not understand on the second call - ends
+   the first Walk after b/x/, returns false and never walks "c". *)
+Example skipdir_on_error_loses_roots :
+  uroots_ok ex_uroots /\
+  read_files_e (mkOpts true true false false) [] ex_uroots =
+    Ok ([[98;47]; [98;47;120;47]; [98;47;103]; [99;47]; [99;47;104]], true) /\
+  walk_roots_e (walk_fn_skipdir_on_error (mkOpts true true false false) (split_ignores [])) false true ex_uroots =
+    Ok ([[98;47]; [98;47;120;47]], false).
+Proof. exact skipdir_on_error_loses_roots_proof. Qed.
